@@ -11,7 +11,12 @@ Definition script_of (t : stab) (c : N) (st : stage) : verdict :=
 
 Inductive case :=
 | CMsg (script : stab) (cfg : pcfg) (rcpts : list (N * N)) (atomic nonatomic : outcome)
-| CRemote (quar : bool) (rcpts : list N) (refused : list (N * bool)).
+| CRemote (quar : bool) (rcpts : list N) (refused : list (N * bool))
+(* a recipient refused by a check and named again in the same transaction: the replies to it (first
+   and repeated), and the reply to another recipient no check objects to (recorded only: a
+   destination-scoped check that refuses a recipient is replayed that recipient for every later one
+   of the block and refuses them too) *)
+| CRepeat (replies : list bool) (other : bool).
 
 Definition call_eqb (a b : call) : bool :=
   (fst (fst a) =? fst (fst b)) && (snd (fst a) =? snd (fst b)) && stage_eqb (snd a) (snd b).
@@ -54,6 +59,7 @@ Definition agrees (c : case) : bool :=
       let m := run_message (script_of t) cfg rcpts in outcome_eqb m oa && outcome_eqb m on
   | CRemote q rs refused =>
       list_eqb (fun a b => (fst a =? fst b) && Bool.eqb (snd a) (snd b)) (remote_body q rs) refused
+  | CRepeat replies _ => forallb negb replies
   end.
 Definition mismatches (cs : list case) : list N := find_idx (fun c => negb (agrees c)) cs.
 
@@ -128,6 +134,7 @@ Definition monitor (c : case) : list N :=
       mon_one (script_of t) cfg rcpts oa ++ mon_one (script_of t) cfg rcpts on ++
       (if class_eqb (class oa) (class on) then [] else [9])
   | CRemote q rs refused => if q && negb (forallb (fun x => snd x) refused && Nat.eqb (length refused) (length rs)) then [10] else []
+  | CRepeat replies _ => if forallb negb replies then [] else [1]
   end.
 
 Definition dedup_N (l : list N) : list N :=
@@ -150,5 +157,6 @@ Definition tag (c : case) : N :=
       + (if dmarc cfg =? 0 then 0 else 128)
       + (if Nat.ltb 1 (length (blocks cfg)) then 256 else 0)
   | CRemote q _ _ => 512 + (if q then 1 else 0)
+  | CRepeat replies other => 1024 + N.of_nat (length replies) + (if other then 16 else 0)
   end.
 Definition tags (cs : list case) : list N := map tag cs.
